@@ -41,7 +41,7 @@ type vModel struct {
 	urlTag          int // grouped only: 0 none, 1 URL-level Tags @t1, 2 @t2
 	grouped         bool // both interactions under one URL directive (same path)
 	blockAnn        bool // annotations written as /* */
-	layout          int  // 0 as rendered; 1 CRLF; 2 CR; 3 comments and blank lines before top-level directives; 4 definitions in an INCLUDEd file; 5 interactions in a MACRO pasted at root; 6 quoted paths
+	layout          int  // 0 as rendered; 1 CRLF; 2 CR; 3 comments and blank lines before top-level directives; 4 definitions in an INCLUDEd file; 5 interactions in a MACRO pasted at root; 6 quoted paths; 7 every line indented by a tab and a blank
 	ints            []vMInteraction
 }
 
@@ -170,7 +170,7 @@ func vModelSymbolic(n int) vModel {
 			}
 		}
 	}
-	m.layout = vFeatInt("layout", 0, 6)
+	m.layout = vFeatInt("layout", 0, 7)
 	return m
 }
 
@@ -244,6 +244,12 @@ func vApplyLayout(doc string, layout int) (string, map[string]string) {
 			return doc, nil
 		}
 		return strings.Join(lines[:d1], "") + "MACRO @all\n(\n" + vIndent(strings.Join(lines[d1:], ""), 2) + ")\nPASTE @all\n", nil
+	case 7:
+		var sb strings.Builder
+		for _, l := range lines {
+			sb.WriteString("\t " + l)
+		}
+		return sb.String(), nil
 	case 6:
 		var sb strings.Builder
 		for _, l := range lines {
